@@ -22,6 +22,14 @@ def M(id_, file, old, new, props):
 
 
 MUTANTS = [
+    M('double-modulo-in-one-store', PS, '        for i, dim in enumerate(self.periodic):\n            points_t[:, dim] = (points_t[:, dim] + (-1 if inverse else +1) *\n                                (-self.centers[i] + 0.5)) % 1\n            # The modulo of a tiny negative number rounds to exactly 1.\n            points_t[:, dim] = points_t[:, dim] % 1\n',
+      "        sign = -1 if inverse else +1\n"
+      "        for i, dim in enumerate(self.periodic):\n"
+      "            shift = sign * (0.5 - self.centers[i])\n"
+      "            points_t[:, dim] = (points_t[:, dim] + shift) % 1 % 1\n", 'C16'),
+    M('gap-index-overridden', PS, "            bound.centers[i] = (\n                x[np.argmax(dx)] + np.amax(dx) / 2.0 + 0.5) % 1",
+      "            k = np.argmax(dx)\n            if 2 * dx[-1] > dx[k]:\n                k = len(dx) - 1\n"
+      "            bound.centers[i] = (x[k] + dx[k] / 2.0 + 0.5) % 1", 'C16'),
     M('networks-aliased-on-read', NN, "        emulator.neural_networks = []\n",
       "        emulator.neural_networks = []\n        spare = [MLPRegressor()] * 2\n", 'C09'),
     M('free-branch-on-ppf', PR, "            if hasattr(dist, 'isf'):\n                phys_points[..., i] = dist.isf(1 - points[..., i])",
@@ -1217,6 +1225,15 @@ BENIGN += [
          new=None, fn=_union_replace_helper, props=ALL.split()),
     dict(id='union-split-in-place', file=U, old="        self.bounds = self.bounds + new_bounds",
          new=None, fn=('_union_split_in_place', True), props=ALL.split()),
+    dict(id='hoisted-sign-two-stores', file=PS, old='        for i, dim in enumerate(self.periodic):\n            points_t[:, dim] = (points_t[:, dim] + (-1 if inverse else +1) *\n                                (-self.centers[i] + 0.5)) % 1\n            # The modulo of a tiny negative number rounds to exactly 1.\n            points_t[:, dim] = points_t[:, dim] % 1\n',
+         new="        sign = -1 if inverse else +1\n"
+             "        for i, dim in enumerate(self.periodic):\n"
+             "            shift = sign * (0.5 - self.centers[i])\n"
+             "            points_t[:, dim] = (points_t[:, dim] + shift) % 1\n"
+             "            points_t[:, dim] = points_t[:, dim] % 1\n", props=ALL.split()),
+    dict(id='gap-index-in-a-local', file=PS, old="            bound.centers[i] = (\n                x[np.argmax(dx)] + np.amax(dx) / 2.0 + 0.5) % 1",
+         new="            k = np.argmax(dx)\n            bound.centers[i] = (x[k] + dx[k] / 2.0 + 0.5) % 1",
+         props=ALL.split()),
     dict(id='with-statement', file=S, old="fstream = h5py.File(filepath_tmp, 'w')", new=None,
          fn=_with_statement, props=ALL.split()),
     dict(id='guard-clause-trim', file=U, old="            return False\n\n    def contains",
